@@ -117,6 +117,17 @@ def classify_crash(prop, stderr_text, sig, phase):
     return ('%s:signal:%s:%s' % (prop, SIGNAMES.get(sig, str(sig)), phase), 'killed by signal')
 
 
+def _is_lib_loc(loc):
+    return ('bspline' in loc or 'splinetable' in loc or 'fitsio.h' in loc or 'convolve' in loc or 'glam.c' in loc or 'nnls.c' in loc or 'cholesky_solve.c' in loc
+            or 'splineutil.c' in loc or 'permute.h' in loc or 'grideval.h' in loc or 'aux.h' in loc or 'fit.h' in loc) and 'vf_' not in loc and '/harness/' not in loc
+
+
+def OUTDIR(kind):
+    """evidence/ and replays/ live in /verif; VERIF_OUT redirects both (tryouts of seeded changes must not overwrite the evidence of the real tree)"""
+    o = os.environ.get('VERIF_OUT')
+    return os.path.join(o, kind) if o else os.path.join(VERIF, kind)
+
+
 def scan_reports(prop, text):
     """race reports of ThreadSanitizer / helgrind in a process's output -> list of (key, snippet)"""
     out = []
@@ -139,10 +150,17 @@ def scan_reports(prop, text):
         fn = None
         for fm in re.finditer(r'==\d+==\s+(?:at|by) 0x[0-9A-F]+: (.+?) \(([^()]*)\)\s*$', first, re.M):
             loc = fm.group(2)
-            if ('bspline' in loc or 'splinetable' in loc or 'fitsio.h' in loc or 'convolve' in loc or 'glam.c' in loc or 'nnls.c' in loc or 'cholesky_solve.c' in loc or 'splineutil.c' in loc or 'permute.h' in loc or 'grideval.h' in loc or 'aux.h' in loc or 'fit.h' in loc) and 'vf_' not in loc:
+            if _is_lib_loc(loc):
                 fn = _fn_name(fm.group(1))
                 break
         kind = re.sub(r'\d+', 'N', m.group(1)).replace(' ', '-')[:60]
+        if not fn and 'Uninitialised value was created' in b:
+            # the value is used in the harness (it judges what the library returned) but was created inside the library: an uninitialised result
+            for fm in re.finditer(r'==\d+==\s+(?:at|by) 0x[0-9A-F]+: (.+?) \(([^()]*)\)\s*$', b.split('Uninitialised value was created')[1], re.M):
+                loc = fm.group(2)
+                if _is_lib_loc(loc):
+                    fn = 'created-in:' + _fn_name(fm.group(1))
+                    break
         if fn:
             out.append(('%s:memcheck:%s:%s' % (prop, kind, fn), b[:3000]))
     # helgrind
@@ -404,8 +422,8 @@ def write_evidence(prop, tier, seed, level, res, rule, wall, assumptions, extra_
         cov.update(extra_cov)
     ev = dict(property_id=prop, tier=tier, seed=int(seed), level=level, coverage=cov, assumptions=assumptions,
               wall_s=round(wall, 2), violations=int(nviol), known_findings_hit=known_hit or [])
-    os.makedirs(os.path.join(VERIF, 'evidence'), exist_ok=True)
-    p = os.path.join(VERIF, 'evidence', prop + '.json')
+    os.makedirs(OUTDIR('evidence'), exist_ok=True)
+    p = os.path.join(OUTDIR('evidence'), prop + '.json')
     with open(p + '.tmp', 'w') as f:
         json.dump(ev, f, indent=1, default=str)
     os.replace(p + '.tmp', p)
@@ -415,7 +433,7 @@ def write_evidence(prop, tier, seed, level, res, rule, wall, assumptions, extra_
 def report(prop, res, findings):
     """print KNOWN-FINDING / VIOLATION lines, write replay files; returns (nviol, known_hit)"""
     nviol, known_hit = 0, []
-    shutil.rmtree(os.path.join(VERIF, 'replays', prop), ignore_errors=True)
+    shutil.rmtree(os.path.join(OUTDIR('replays'), prop), ignore_errors=True)
     for key in sorted(res.viol):
         w = res.viol[key]
         k = findings.known(prop, key)
@@ -423,7 +441,7 @@ def report(prop, res, findings):
             print('KNOWN-FINDING: property=%s %s %s (seen %d times this run)' % (prop, key, k.get('description', ''), res.viol_count[key]))
             known_hit.append(key)
             continue
-        d = os.path.join(VERIF, 'replays', prop)
+        d = os.path.join(OUTDIR('replays'), prop)
         os.makedirs(d, exist_ok=True)
         fn = re.sub(r'[^A-Za-z0-9_.-]+', '_', key)[:120] + '.json'
         rp = os.path.join(d, fn)
